@@ -24,7 +24,7 @@ from dvc_data.hashfile.hash_info import HashInfo  # noqa: E402
 from dvc_data.hashfile.meta import Meta  # noqa: E402
 from dvc_data.hashfile.tree import Tree  # noqa: E402
 
-PARTS = ["img", "img_raw", "im", "a", "a.b", "train", "train2", "z", "a\\b", "caf\u00e9", "cafe\u0301", "cafz", "e\u0301x", "f", "\u00e9x", "A", "\U0001f600"]  # composed / decomposed twins are distinct names
+PARTS = ["img", "img_raw", "im", "a", "a.b", "train", "train2", "z", "a\\b", "caf\u00e9", "cafe\u0301", "cafz", "e\u0301x", "f", "\u00e9x", "A", "\U0001f600", ""]  # composed / decomposed twins are distinct names
 DIGESTS = [hashlib.md5(bytes([i])).hexdigest() for i in range(5)]  # noqa: S324
 
 
@@ -148,7 +148,7 @@ def main():
                 failures.append({"problems": [f"raised {type(e).__name__}: {str(e)[:120]}"]})
             evals += 1
     print(json.dumps({"evaluations": evals, "distinct_nontrivial": evals, "n_failures": len(failures), "failures": failures[:4],
-                      "bound": f"{n} seeded entry sets: <= 7 files, depth <= 4, 17 path components (textual-extension siblings, composed/decomposed Unicode twins, upper case, astral), 5 digests; "
+                      "bound": f"{n} seeded entry sets: <= 7 files, depth <= 4, 17 path components (textual-extension siblings, composed/decomposed Unicode twins, upper case, astral, the empty component), 5 digests; "
                                "3 insertion orders each, every prefix, also after an entry of the same tree object was replaced / added"}))
 
 
